@@ -91,3 +91,12 @@ def replay(ctx, payload):
     def oracle(t, impl, y, m):
         return check(t, table)
     return replay_parse(ctx, payload, oracle)
+
+
+def still_fails(ctx, t):
+    table = {d["name"]: d for d in table_of(ctx)}
+    bad = check(t, table)
+    if not bad:
+        return False
+    v = {"input_hex": t.hex(), "what": bad}
+    return not any(matcher(f, v) for f in findings_for("C03") if f.get("status") == "known")
